@@ -1,5 +1,7 @@
+import HqModel.Props.WorkerSide
 import HqModel.Lemmas.JobSteps
 import HqModel.Lemmas.CoreSteps
+import HqModel.Lemmas.CoreInvIds
 /-!
 # C08 — cancel is final
 
@@ -54,5 +56,16 @@ example :
     ((Job.State.cancelJob (⟨[(⟨1, [(0, .running), (1, .waiting)], ⟨1, 0, 0, 0, 0⟩, false, none⟩ : Job.Job)],
         2, [], []⟩ : Job.State) 1).toOption.map
       (fun r => r.1.jobs.map (·.tasks))) = some [[(0, .canceled), (1, .canceled)]] := by decide
+
+/-- **The core forgets a cancelled task in the same step, in every reachable state** (ids are unique after
+every sequence of operations from the empty core, `Core.run_nodup`). -/
+theorem c08_core_forgets_reachable (ops : List Core.Op) (s : Core.State) (out : Core.Out)
+    (hrun : Core.run {} ops = .ok (s, out)) (s' : Core.State) (id : Core.TaskId) (st : Core.TS)
+    (h : s.removeTask id = .ok (s', st)) : s'.task? id = none :=
+  Core.removeTask_unknown (Core.run_nodup hrun) h
+
+/-- non-vacuity: a run that submits a task and cancels it; the task is unknown afterwards -/
+example : ((Core.run {} [.newRq [{}], .newTasks [⟨(1, 0), 0, 0, .max 5, [], 0, 0⟩], .cancel [(1, 0)]]).toOption.map
+    fun r => r.1.tasks.map (·.id)) = some [] := by decide
 
 end HqModel.C08
